@@ -75,6 +75,7 @@ func (w *writer) Schedule(ctx context.Context, offset uint64) {
 	case w.queue <- RoutedMessage{
 		offset: offset,
 	}:
+		vhook("writer.enq", offset)
 	case <-ctx.Done():
 	}
 }
@@ -85,6 +86,7 @@ func (w *writer) Send(ctx context.Context, recipients []string, qosses []int32, 
 		qosses:     qosses,
 		recipients: recipients,
 	}:
+		vhook("writer.enq", uint64(0))
 	case <-ctx.Done():
 	}
 }
@@ -257,6 +259,7 @@ func (w *writer) Run(ctx context.Context, log messageLog) error {
 				p, err := log.Get(routedMessage.offset)
 				if err != nil {
 					L(ctx).Warn("failed to read message from log", zap.Error(err))
+					vhook("writer.done", routedMessage.offset, err)
 					continue
 				}
 				subscriptions := w.state.ByPattern(p.Topic)
@@ -290,6 +293,7 @@ func (w *writer) Run(ctx context.Context, log messageLog) error {
 				w.mtx.Unlock()
 			}
 			L(ctx).Debug("message written")
+			vhook("writer.done", routedMessage.offset, nil)
 		}
 	}
 }
